@@ -19,6 +19,7 @@ EXPLANATION = (
     "not shown - is only emitted for the newline position of the current line or under a test that text[offs] is a space (or a space/newline); (5) ALIGN: the left padding is width - sc "
     "for right alignment and (width - sc + 1) // 2 (half, rounded up) for centre, nothing for left; (6) DEADCMP: double-byte second-half tests used by the backward break search are not dead; (7) an already emitted line is taken back (to re-wrap an over-long word) only under an "
     "equality test of its consumed character against the space, never a newline."
+    ' Added after seed round 3: (9) ACCUM on calc_coords / line_width; (10) OFFSTEP - a text offset is advanced by a constant only where the character stepped over is known to be one byte (a find() position of the newline, or under a text[x] == space test); (11) a segment cut with calc_trim_text declares end_col - start_col - pad_left - pad_right columns (linear forms compared).'
 )
 NOT_DECIDED = (
     "Completeness and non-duplication of characters as a value statement, that no laid-out line spans a hard newline, fill-optimality of 'any' wrapping, break-at-space-whenever-possible, "
